@@ -551,6 +551,11 @@ func runC08R5(c *Ctx) {
 				}
 			}
 		}
+		if u, ok := p.Resolve(rv).V.(*ssa.UnOp); ok && u.Op == token.MUL {
+			if fv, ok := u.X.(*ssa.FreeVar); ok && fv.Name() == "allowAll" {
+				allowAll = true // the '*' flag returned as is
+			}
+		}
 		if byDomain || byFile || allowAll {
 			c.ok(rule, key, p.Exit, "domain rule, authenticated-emails file, or '*'")
 		} else {
